@@ -88,6 +88,11 @@ async fn serve<T>(fake: &mut FakeServer, orig: &Frame, o: &Outage, op: &mut Join
         tokio::select! {
             inc = fake.incoming.recv() => {
                 let mut inc = match inc { Some(i) => i, None => return (Served::GaveUp(attempts), None) };
+                if fake.is_stale(&inc) {
+                    // opened over a connection that has been cut since (a client that saw its stream
+                    // end re-registers at once, over the connection that is about to go away)
+                    continue;
+                }
                 attempts += 1;
                 seen.store(true, std::sync::atomic::Ordering::SeqCst);
                 if let Some(t) = last_answer {
@@ -160,10 +165,23 @@ async fn expect_frame(inc: &mut Incoming, want: &str, skip_prefix: &str) -> Resu
 /// How a connection loss is produced.
 struct Cutter {
     relay: Option<net::Relay>,
+    graceful: bool,
 }
 
 impl Cutter {
-    async fn outage(&self, fake: &FakeServer) {
+    /// `cur`: the stream the fake server currently serves; with a graceful outage it is finished
+    /// cleanly (the peer sees the end of the stream, not a read error) just before the connection
+    /// goes away - the order a server shutting down gracefully does things in
+    async fn outage(&self, fake: &mut FakeServer, cur: &mut Incoming) {
+        if self.graceful {
+            let _ = cur.stream.finish().await;
+            tokio::time::sleep(Duration::from_millis(40)).await;
+            // a client that saw the end of its stream may already have re-registered over the
+            // connection that is about to go away: that attempt dies with it (and counts)
+            fake.cut();
+            tokio::time::sleep(Duration::from_millis(100)).await;
+            return;
+        }
         match &self.relay {
             None => {
                 fake.cut();
@@ -208,7 +226,7 @@ async fn cell(set: Arc<CertSet>, p: Params) -> Result<String, Fail> {
     let target = relay.as_ref().map(|r| r.addr).unwrap_or(fake.addr);
     // with a silent outage the connection must be kept alive by pings more often than the idle time-out
     let client = net::client_ka(target, &set.ca, &set.client, backoff(&p.backoff, p.max), if silent { 300 } else { 5_000 }).await.map_err(|e| setup("client connect", e.to_string()))?;
-    let cutter = Cutter { relay };
+    let cutter = Cutter { relay, graceful: p.outage == "graceful" };
     let topic = "/c12ns/topic";
     let code = if p.fatal { INVALID_TOPIC_NAME } else { REPLIER_ALREADY_BOUND };
     let r = match p.kind.as_str() {
@@ -273,7 +291,7 @@ async fn publisher(fake: &mut FakeServer, cutter: &Cutter, client: &selium::Clie
                 publ.feed(big).await.map_err(|e| fail("send-error", class, format!("feed before outage {j} failed: {e}")))?;
             }
         }
-        cutter.outage(fake).await;
+        cutter.outage(fake, &mut cur).await;
         let seen = Arc::new(std::sync::atomic::AtomicBool::new(false));
         let seen_op = seen.clone();
         let mut op = tokio::spawn(async move {
@@ -345,7 +363,7 @@ async fn subscriber(fake: &mut FakeServer, cutter: &Cutter, client: &selium::Cli
         }
     }
     for j in 1..=p.outages {
-        cutter.outage(fake).await;
+        cutter.outage(fake, &mut cur).await;
         let seen = Arc::new(std::sync::atomic::AtomicBool::new(false));
         let mut op = tokio::spawn(async move {
             let r = sub.next().await;
@@ -417,7 +435,7 @@ async fn requestor(fake: &mut FakeServer, cutter: &Cutter, client: &selium::Clie
         }
     }
     for j in 1..=p.outages {
-        cutter.outage(fake).await;
+        cutter.outage(fake, &mut cur).await;
         let seen = Arc::new(std::sync::atomic::AtomicBool::new(false));
         let seen_op = seen.clone();
         let mut op = tokio::spawn(async move {
@@ -518,7 +536,7 @@ async fn requestor_clones(fake: &mut FakeServer, cutter: &Cutter, client: &seliu
         }
     }
     for j in 1..=p.outages {
-        cutter.outage(fake).await;
+        cutter.outage(fake, &mut cur).await;
         // clone b first: it recovers and its retried request is left unanswered for the moment
         let seen_b = Arc::new(std::sync::atomic::AtomicBool::new(false));
         let seen_op = seen_b.clone();
@@ -599,7 +617,7 @@ async fn replier(fake: &mut FakeServer, cutter: &Cutter, client: &selium::Client
         exchange(&mut cur, &format!("pre{i}")).await.map_err(|e| fail("setup", "pre", e))?;
     }
     for j in 1..=p.outages {
-        cutter.outage(fake).await;
+        cutter.outage(fake, &mut cur).await;
         let seen = Arc::new(std::sync::atomic::AtomicBool::new(false));
         let (served, early) = serve(fake, &orig, &Outage { fails: p.fails[j - 1], code, backoff: p.backoff.clone(), seen: seen.clone(), how: p.how.clone() }, &mut listen).await;
         judge(&served, p, j, class)?;
@@ -705,6 +723,15 @@ fn cells(tier: &str) -> Vec<Value> {
                         id += 1;
                     }
                 }
+                // the served stream ends cleanly before the connection is closed
+                if pre <= 1 && max >= 2 {
+                    for fv in [vec![0u32], vec![0, 0]] {
+                        if thorough || fv.len() == 1 || kind == "replier" || kind == "subscriber" {
+                            v.push(json!({"cell": id, "kind": kind, "items_before": pre, "outages": fv.len(), "failing_attempts_per_outage": fv, "failure": "retryable", "backoff": "constant", "max_attempts": max, "outage": "graceful"}));
+                            id += 1;
+                        }
+                    }
+                }
                 // a replier refused the way the real server does it (Ok, then the bind error, then
                 // the end of the stream): each acknowledged re-registration is a new outage
                 if kind == "replier" && (pre == 0 || thorough) {
@@ -764,7 +791,15 @@ pub async fn run(tier: &str, replaying: bool) -> ! {
                 queued: c["queued_unflushed"].as_bool().unwrap_or(false),
             };
             let nontrivial = p.outages >= 2 || p.fails.iter().any(|f| *f >= 1);
-            (nontrivial, cell(set, p).await)
+            // in a task of its own: a panic inside the client library is a verdict about the cell,
+            // not the end of the engine
+            let kind = p.kind.clone();
+            let r = match tokio::spawn(cell(set, p)).await {
+                Ok(r) => r,
+                Err(e) if e.is_panic() => Err(fail("client-panicked", &kind, format!("the client library panicked while the {kind} was recovering: {e}"))),
+                Err(e) => Err(fail("setup", "task", e.to_string())),
+            };
+            (nontrivial, r)
         }
     })
     .await;
@@ -774,7 +809,7 @@ pub async fn run(tier: &str, replaying: bool) -> ! {
     finish(
         rep,
         outs,
-        "every cell of: stream kind {publisher, subscriber, requestor, replier} x items exchanged before the first cut {0,1(,2)} x number of successive outages 1..=max+2 x failing re-registration attempts per outage 0..=max x backoff {constant, linear, exponential(2)} (all three in thorough, rotating in quick) with step 5 ms x max attempts {1,2(,3)}, plus (thorough) every non-uniform vector of survivable failure counts over up to three outages, plus cells whose failing attempts fail because the fake server cuts the connection again while the client waits for the answer to its re-registration (instead of answering with an error frame), plus repliers whose re-registration is acknowledged and then refused with replier-already-bound and closed (what the real server does while the old binding exists; every acknowledged attempt ends one outage, so the replier must keep re-registering until served), plus publishers with 10 KiB fed but not flushed at the moment of the cut (the loss then surfaces in poll_ready), plus one unrecoverable-answer cell per (kind, max, items), plus silent outages (a UDP relay drops every packet for 2.6 s against a 1.5 s idle time-out, so the connection ends by time-out instead of by a close frame) per (kind, max), plus two clones of one requestor recovering one after the other with a request of the first in flight. Oracle per outage: the re-registration frame equals the original; the fake server counts exactly fails+1 attempts (max when all fail, 1 when unrecoverable) regardless of earlier outages; with fails<max the stream works again (published item reaches the fake server / pushed item is yielded / retried and fresh requests are answered / a request sent to the replier is replied to); with fails==max too-many-retries is reported on the operation that hit the outage or on the next one; an unrecoverable answer is reported immediately. non-trivial = at least two outages or at least one failing attempt",
+        "every cell of: stream kind {publisher, subscriber, requestor, replier} x items exchanged before the first cut {0,1(,2)} x number of successive outages 1..=max+2 x failing re-registration attempts per outage 0..=max x backoff {constant, linear, exponential(2)} (all three in thorough, rotating in quick) with step 5 ms x max attempts {1,2(,3)}, plus (thorough) every non-uniform vector of survivable failure counts over up to three outages, plus cells whose failing attempts fail because the fake server cuts the connection again while the client waits for the answer to its re-registration (instead of answering with an error frame), plus graceful outages (the fake server finishes the served stream cleanly, so the client sees the end of the stream rather than a read error, and then closes the connection), plus repliers whose re-registration is acknowledged and then refused with replier-already-bound and closed (what the real server does while the old binding exists; every acknowledged attempt ends one outage, so the replier must keep re-registering until served), plus publishers with 10 KiB fed but not flushed at the moment of the cut (the loss then surfaces in poll_ready), plus one unrecoverable-answer cell per (kind, max, items), plus silent outages (a UDP relay drops every packet for 2.6 s against a 1.5 s idle time-out, so the connection ends by time-out instead of by a close frame) per (kind, max), plus two clones of one requestor recovering one after the other with a request of the first in flight. Oracle per outage: the re-registration frame equals the original; the fake server counts exactly fails+1 attempts (max when all fail, 1 when unrecoverable) regardless of earlier outages; with fails<max the stream works again (published item reaches the fake server / pushed item is yielded / retried and fresh requests are answered / a request sent to the replier is replied to); with fails==max too-many-retries is reported on the operation that hit the outage or on the next one; an unrecoverable answer is reported immediately. non-trivial = at least two outages or at least one failing attempt",
         "fault sequences are enumerated exhaustively; scheduling inside tokio/quinn is not controlled",
         json!({"step_ms": STEP_MS}),
         replaying,
